@@ -674,7 +674,14 @@ func (m *Module) renderInjectors(p *Pkg) []world.File {
 						extraSum += " + " + o.Name
 					}
 				}
-				fmt.Fprintf(&b, "// copied%d is copied into the generated file.\nfunc copied%d_%d(err int%s) int {\n\tcleanup := err + %d%s\n\treturn cleanup\n}\n\n", i, p.Idx, i, extraParams, i, extraSum)
+				shadow := ""
+				if extraParams != "" {
+					// the same colliding name declared again in nested scopes: several distinct objects with one
+					// name inside ONE copied declaration, each of which needs its own new name
+					first := strings.Fields(strings.TrimPrefix(extraParams, ", "))[0]
+					shadow = fmt.Sprintf("\tif err > %d {\n\t\t%s := %s + err\n\t\tfor i := 0; i < 2; i++ {\n\t\t\t%s := %s + i\n\t\t\terr += %s\n\t\t}\n\t\treturn %s\n\t}\n", i, first, first, first, first, first, first)
+				}
+				fmt.Fprintf(&b, "// copied%d is copied into the generated file.\nfunc copied%d_%d(err int%s) int {\n%s\tcleanup := err + %d%s\n\treturn cleanup\n}\n\n", i, p.Idx, i, extraParams, shadow, i, extraSum)
 			}
 		}
 		var anon []string
